@@ -30,7 +30,7 @@ from .common import _SubstMany, _strip_doc, bind_call, callee_of_self_call, clon
 
 
 def _pure_arg(e: ast.AST) -> bool:
-    if isinstance(e, (ast.Name, ast.Constant)):
+    if isinstance(e, (ast.Name, ast.Constant, ast.Lambda)):
         return True
     if isinstance(e, ast.Attribute):
         return _pure_arg(e.value)
@@ -52,8 +52,11 @@ def _callee(ctx: Ctx, f: Func, call: ast.Call) -> Optional[Func]:
     if m is not None:
         return m
     fn = call.func
-    # module-level helper of the same module, or h.helper(...)
+    # a function defined inside f, a module-level helper of the same module, or h.helper(...)
     if isinstance(fn, ast.Name):
+        local = next((h_ for h_ in ctx.prog.funcs if h_.parent is f and h_.name == fn.id), None)
+        if local is not None:
+            return local
         return f.module.functions.get(fn.id)
     if isinstance(fn, ast.Attribute) and isinstance(fn.value, ast.Name):
         target = f.module.imports.get(fn.value.id)
@@ -71,7 +74,7 @@ def _instantiate(ctx: Ctx, f: Func, call: ast.Call, want_value: bool) -> Optiona
         return None
     if any(isinstance(x, (ast.Yield, ast.YieldFrom, ast.Await, ast.Global, ast.Nonlocal)) for x in ast.walk(m.node)):
         return None
-    bound = m.cls is not None
+    bound = m.cls is not None and m.parent is None
     binding = bind_call(m, call, bound=bound)
     if binding is None:
         return None
@@ -80,7 +83,7 @@ def _instantiate(ctx: Ctx, f: Func, call: ast.Call, want_value: bool) -> Optiona
     if set(binding) & _stores(m.node):
         return None
     # the callee's `self` must be the caller's `self`
-    if m.kind in ("method", "getter", "setter"):
+    if m.kind in ("method", "getter", "setter") and m.parent is None:
         recv = call.func.value if isinstance(call.func, ast.Attribute) else None
         if not (isinstance(recv, ast.Name) and recv.id == "self"):
             return None
@@ -111,12 +114,52 @@ def _instantiate(ctx: Ctx, f: Func, call: ast.Call, want_value: bool) -> Optiona
 
 
 def inline_delegation(ctx: Ctx, f: Func, fn: ast.FunctionDef) -> bool:
-    body = _strip_doc(list(fn.body))
-    if len(body) == 1 and isinstance(body[0], ast.Return) and isinstance(body[0].value, ast.Call):
-        new = _instantiate(ctx, f, body[0].value, want_value=True)
-        if new is not None:
-            fn.body = new
-            return True
+    """`return self._m(args)` (a tail call of a private helper of the object, a local function or a module helper)
+    -> the helper's body: its returns become the caller's returns.  A helper that can fall off its end gets an explicit
+    `return None` appended."""
+    changed = False
+
+    def block(stmts: List[ast.stmt]) -> List[ast.stmt]:
+        nonlocal changed
+        out: List[ast.stmt] = []
+        for st in stmts:
+            if isinstance(st, (ast.FunctionDef, ast.AsyncFunctionDef, ast.ClassDef)):
+                out.append(st)
+                continue
+            for fld in ("body", "orelse", "finalbody"):
+                v = getattr(st, fld, None)
+                if isinstance(v, list) and v and isinstance(v[0], ast.stmt):
+                    setattr(st, fld, block(v))
+            if isinstance(st, ast.Try):
+                for h in st.handlers:
+                    h.body = block(h.body)
+            if isinstance(st, ast.Return) and isinstance(st.value, ast.Call):
+                c = st.value
+                name = c.func.attr if isinstance(c.func, ast.Attribute) else (c.func.id if isinstance(c.func, ast.Name) else "")
+                whole = len(_strip_doc(list(fn.body))) == 1
+                if (name.startswith("_") and not name.startswith("__")) or whole:
+                    m = _callee(ctx, f, c)
+                    # a tail call inside try would move the helper's body under the handlers: only outside try
+                    new = _instantiate(ctx, f, c, want_value=True) if m is not None and not _inside_try(fn, st) else None
+                    if new is not None:
+                        if not new or not isinstance(new[-1], (ast.Return, ast.Raise)):
+                            new = new + [ast.copy_location(ast.Return(value=ast.copy_location(ast.Constant(value=None), st)), st)]
+                        out.extend(new)
+                        changed = True
+                        continue
+            out.append(st)
+        return out
+
+    fn.body = block(fn.body)
+    return changed
+
+
+def _inside_try(fn: ast.AST, node: ast.AST) -> bool:
+    for t in ast.walk(fn):
+        if isinstance(t, ast.Try):
+            for part in (t.body, t.orelse):
+                if any(node is x for b in part for x in ast.walk(b)):
+                    return True
     return False
 
 
@@ -155,8 +198,122 @@ def inline_call_statements(ctx: Ctx, f: Func, fn: ast.FunctionDef) -> bool:
     return changed
 
 
-def unroll_literal_loops(fn: ast.FunctionDef) -> bool:
+class _Beta(ast.NodeTransformer):
+    """(lambda a, b: E)(x, y) -> E[a := x, b := y] for side-effect free arguments."""
+
     changed = False
+
+    def visit_Call(self, node: ast.Call):
+        self.generic_visit(node)
+        lam = node.func
+        if isinstance(lam, ast.Lambda) and not node.keywords and not lam.args.vararg and not lam.args.kwarg and not lam.args.kwonlyargs and not lam.args.defaults:
+            ps = [a.arg for a in lam.args.posonlyargs + lam.args.args]
+            if len(ps) == len(node.args) and all(_pure_arg(a) for a in node.args):
+                bound = {n.id for n in ast.walk(lam.body) if isinstance(n, ast.Name) and isinstance(n.ctx, ast.Store)}
+                if not (bound & set(ps)):
+                    self.changed = True
+                    return ast.copy_location(_SubstMany(dict(zip(ps, node.args))).visit(clone(lam.body)), node)
+        return node
+
+
+class _Quant(ast.NodeTransformer):
+    """all(E(v) for v in (t1, t2, ...)) -> E(t1) and E(t2) and ... ; any(...) -> or  (same evaluation order, same
+    short circuit).  The tuple may be a local bound exactly once to a tuple literal."""
+
+    def __init__(self, local_tuples: Dict[str, ast.AST]):
+        self.local_tuples = local_tuples
+        self.changed = False
+
+    def visit_Call(self, node: ast.Call):
+        self.generic_visit(node)
+        if isinstance(node.func, ast.Name) and node.func.id in ("all", "any") and len(node.args) == 1 and not node.keywords and isinstance(node.args[0], (ast.GeneratorExp, ast.ListComp)):
+            g = node.args[0]
+            if len(g.generators) == 1 and not g.generators[0].ifs and isinstance(g.generators[0].target, ast.Name):
+                it = g.generators[0].iter
+                if isinstance(it, ast.Name) and it.id in self.local_tuples:
+                    it = self.local_tuples[it.id]
+                if isinstance(it, (ast.Tuple, ast.List)) and 0 < len(it.elts) <= 12 and all(_pure_arg(e) for e in it.elts):
+                    v = g.generators[0].target.id
+                    vals = [_SubstMany({v: e}).visit(clone(g.elt)) for e in it.elts]
+                    self.changed = True
+                    if len(vals) == 1:
+                        return ast.copy_location(ast.Call(func=ast.Name(id="bool", ctx=ast.Load()), args=vals, keywords=[]), node)
+                    return ast.copy_location(ast.BoolOp(op=ast.And() if node.func.id == "all" else ast.Or(), values=vals), node)
+        return node
+
+
+def _local_tuples(fn: ast.FunctionDef) -> Dict[str, ast.AST]:
+    binds: Dict[str, int] = {}
+    for n in ast.walk(fn):
+        if isinstance(n, ast.Name) and isinstance(n.ctx, (ast.Store, ast.Del)):
+            binds[n.id] = binds.get(n.id, 0) + 1
+    out: Dict[str, ast.AST] = {}
+    for n in ast.walk(fn):
+        tg, val = None, None
+        if isinstance(n, ast.Assign) and len(n.targets) == 1 and isinstance(n.targets[0], ast.Name):
+            tg, val = n.targets[0].id, n.value
+        elif isinstance(n, ast.AnnAssign) and isinstance(n.target, ast.Name) and n.value is not None:
+            tg, val = n.target.id, n.value
+        if tg and isinstance(val, ast.Tuple) and binds.get(tg) == 1 and all(_pure_arg(e) for e in val.elts):
+            out[tg] = val
+    return out
+
+
+def expand_quantifiers(fn: ast.FunctionDef) -> bool:
+    t = _Quant(_local_tuples(fn))
+    t.visit(fn)
+    return t.changed
+
+
+def beta_reduce(fn: ast.FunctionDef) -> bool:
+    t = _Beta()
+    t.visit(fn)
+    return t.changed
+
+
+def inline_value_calls(ctx: Ctx, f: Func, fn: ast.FunctionDef) -> bool:
+    """`x = self._m(a, self._n())` where the private helpers end in their only `return <expr>`:
+    helper bodies are written out in front of the statement (arguments that are such calls are hoisted into
+    temporaries first, in evaluation order) and the call is replaced by the returned expression."""
+    changed = False
+    counter = [0]
+
+    def single_tail_return(m: Func) -> bool:
+        body = _strip_doc(list(m.node.body))
+        rets = [n for st in body for n in ast.walk(st) if isinstance(n, ast.Return)]
+        return bool(body) and len(rets) == 1 and body[-1] is rets[0] and rets[0].value is not None
+
+    def inlinable(c: ast.AST) -> Optional[Func]:
+        if not isinstance(c, ast.Call):
+            return None
+        name = c.func.attr if isinstance(c.func, ast.Attribute) else (c.func.id if isinstance(c.func, ast.Name) else "")
+        if not (name.startswith("_") and not name.startswith("__")):
+            return None
+        m = _callee(ctx, f, c)
+        if m is None or m is f or m.node is f.node or not single_tail_return(m):
+            return None
+        return m
+
+    def expand(c: ast.Call, at: ast.stmt, depth: int = 0):
+        """(statements to put in front, expression that replaces the call) or None."""
+        if depth > 3:
+            return None
+        pre: List[ast.stmt] = []
+        c2 = clone(c)
+        for i, a in enumerate(c2.args):
+            if inlinable(a) is not None:
+                r = expand(a, at, depth + 1)
+                if r is None:
+                    return None
+                counter[0] += 1
+                tmp = f"arg__{counter[0]}"
+                pre.extend(r[0])
+                pre.append(ast.copy_location(ast.Assign(targets=[ast.Name(id=tmp, ctx=ast.Store())], value=r[1]), at))
+                c2.args[i] = ast.copy_location(ast.Name(id=tmp, ctx=ast.Load()), a)
+        body = _instantiate(ctx, f, c2, want_value=True)
+        if body is None or not body or not isinstance(body[-1], ast.Return):
+            return None
+        return pre + body[:-1], body[-1].value
 
     def block(stmts: List[ast.stmt]) -> List[ast.stmt]:
         nonlocal changed
@@ -166,19 +323,111 @@ def unroll_literal_loops(fn: ast.FunctionDef) -> bool:
                 v = getattr(st, fld, None)
                 if isinstance(v, list) and v and isinstance(v[0], ast.stmt):
                     setattr(st, fld, block(v))
+            if isinstance(st, ast.Try):
+                for h in st.handlers:
+                    h.body = block(h.body)
+            val = getattr(st, "value", None) if isinstance(st, (ast.Assign, ast.AnnAssign, ast.Return)) else None
+            if val is not None and inlinable(val) is not None:
+                r = expand(val, st)
+                if r is not None:
+                    pre, expr = r
+                    for x in pre:
+                        for y in ast.walk(x):
+                            if hasattr(y, "lineno"):
+                                y.lineno = st.lineno
+                                y.end_lineno = getattr(st, "end_lineno", st.lineno)
+                    out.extend(pre)
+                    new = clone(st)
+                    new.value = expr
+                    out.append(new)
+                    changed = True
+                    continue
+            out.append(st)
+        return out
+
+    fn.body = block(fn.body)
+    return changed
+
+
+def unroll_literal_loops(fn: ast.FunctionDef, consts: Optional[Dict[str, ast.AST]] = None) -> bool:
+    """consts: module-level names bound once to a tuple/list literal (a dispatch table iterated by the function)."""
+    changed = False
+    consts = consts or {}
+    # locals bound exactly once to a tuple literal (immutable): `fields = (self._a, self._b)` / `for x in fields:`
+    binds: Dict[str, List[ast.AST]] = {}
+    for n in ast.walk(fn):
+        if isinstance(n, ast.Name) and isinstance(n.ctx, (ast.Store, ast.Del)):
+            binds.setdefault(n.id, []).append(n)
+    local_tuples: Dict[str, ast.AST] = {}
+    for n in ast.walk(fn):
+        tg, val = None, None
+        if isinstance(n, ast.Assign) and len(n.targets) == 1 and isinstance(n.targets[0], ast.Name):
+            tg, val = n.targets[0].id, n.value
+        elif isinstance(n, ast.AnnAssign) and isinstance(n.target, ast.Name) and n.value is not None:
+            tg, val = n.target.id, n.value
+        if tg and isinstance(val, ast.Tuple) and len(binds.get(tg, [])) == 1 and all(_pure_arg(e) for e in val.elts):
+            local_tuples[tg] = val
+
+    def block(stmts: List[ast.stmt]) -> List[ast.stmt]:
+        nonlocal changed
+        out: List[ast.stmt] = []
+        for st in stmts:
+            for fld in ("body", "orelse", "finalbody"):
+                v = getattr(st, fld, None)
+                if isinstance(v, list) and v and isinstance(v[0], ast.stmt):
+                    setattr(st, fld, block(v))
+            it = st.iter if isinstance(st, ast.For) else None
+            if isinstance(it, ast.Name) and it.id in consts and it.id not in _stores(fn):
+                it = consts[it.id]
+            elif isinstance(it, ast.Name) and it.id in local_tuples:
+                it = local_tuples[it.id]
+            tnames = []
+            if isinstance(st, ast.For):
+                if isinstance(st.target, ast.Name):
+                    tnames = [st.target.id]
+                elif isinstance(st.target, ast.Tuple) and all(isinstance(e, ast.Name) for e in st.target.elts):
+                    tnames = [e.id for e in st.target.elts]
             if (
                 isinstance(st, ast.For)
-                and isinstance(st.target, ast.Name)
-                and isinstance(st.iter, (ast.Tuple, ast.List))
+                and tnames
+                and isinstance(it, (ast.Tuple, ast.List))
                 and not st.orelse
-                and 0 < len(st.iter.elts) <= 12
-                and all(_pure_arg(e) for e in st.iter.elts)
-                and not any(isinstance(x, (ast.Break, ast.Continue, ast.Return)) for b in st.body for x in ast.walk(b))
-                and st.target.id not in {n.id for b in st.body for n in ast.walk(b) if isinstance(n, ast.Name) and isinstance(n.ctx, ast.Store)}
+                and 0 < len(it.elts) <= 12
+                and all(_pure_arg(e) for e in it.elts)
+                and (isinstance(st.target, ast.Name) or all(isinstance(e, (ast.Tuple, ast.List)) and len(e.elts) == len(tnames) for e in it.elts))
+                and not any(isinstance(x, (ast.Break, ast.Continue)) for b in st.body for x in ast.walk(b))
+                and not (set(tnames) & {n.id for b in st.body for n in ast.walk(b) if isinstance(n, ast.Name) and isinstance(n.ctx, ast.Store)})
             ):
-                for e in st.iter.elts:
+                for e in it.elts:
+                    binding = {tnames[0]: e} if isinstance(st.target, ast.Name) else dict(zip(tnames, e.elts))
                     for b in st.body:
-                        out.append(_SubstMany({st.target.id: e}).visit(clone(b)))
+                        out.append(_SubstMany(binding).visit(clone(b)))
+                changed = True
+                continue
+            # first-match loop: for t, p in TABLE: if C: S; break  else: E   ->   if C1: S1 elif C2: S2 else: E
+            if (
+                isinstance(st, ast.For)
+                and tnames
+                and isinstance(it, (ast.Tuple, ast.List))
+                and 0 < len(it.elts) <= 12
+                and all(_pure_arg(e) for e in it.elts)
+                and (isinstance(st.target, ast.Name) or all(isinstance(e, (ast.Tuple, ast.List)) and len(e.elts) == len(tnames) for e in it.elts))
+                and len(st.body) == 1
+                and isinstance(st.body[0], ast.If)
+                and not st.body[0].orelse
+                and st.body[0].body
+                and isinstance(st.body[0].body[-1], ast.Break)
+                and not any(isinstance(x, (ast.Break, ast.Continue)) for b in st.body[0].body[:-1] for x in ast.walk(b))
+                and not (set(tnames) & {n.id for b in st.body for n in ast.walk(b) if isinstance(n, ast.Name) and isinstance(n.ctx, ast.Store) and not isinstance(getattr(n, "_p", None), ast.NamedExpr)} - _walrus_targets(st.body[0].test))
+            ):
+                tail: List[ast.stmt] = list(st.orelse)
+                for e in reversed(it.elts):
+                    binding = {tnames[0]: e} if isinstance(st.target, ast.Name) else dict(zip(tnames, e.elts))
+                    inner = st.body[0]
+                    test = _SubstMany(binding).visit(clone(inner.test))
+                    body_i = [_SubstMany(binding).visit(clone(b)) for b in inner.body[:-1]] or [ast.copy_location(ast.Pass(), inner)]
+                    tail = [ast.copy_location(ast.If(test=test, body=body_i, orelse=tail), st)]
+                out.extend(tail)
                 changed = True
                 continue
             out.append(st)
@@ -186,6 +435,10 @@ def unroll_literal_loops(fn: ast.FunctionDef) -> bool:
 
     fn.body = block(fn.body)
     return changed
+
+
+def _walrus_targets(e: ast.AST) -> set:
+    return {x.target.id for x in ast.walk(e) if isinstance(x, ast.NamedExpr) and isinstance(x.target, ast.Name)}
 
 
 class _GetAttr(ast.NodeTransformer):
@@ -373,7 +626,7 @@ def expand_list_comprehensions(fn: ast.FunctionDef) -> bool:
     return changed
 
 
-def normalised(ctx: Ctx, f: Func, steps: str = "delegation,calls,unroll,getattr,temps,predicate") -> Func:
+def normalised(ctx: Ctx, f: Func, steps: str = "delegation,calls,unroll,quant,beta,getattr,temps,predicate") -> Func:
     """A synthetic Func whose body is `f`'s body after the listed rewrites (cached per ctx)."""
     cache = ctx.__dict__.setdefault("_normalised", {})
     key = (id(f), steps)
@@ -388,8 +641,15 @@ def normalised(ctx: Ctx, f: Func, steps: str = "delegation,calls,unroll,getattr,
             round_changed |= inline_delegation(ctx, f, fn)
         if "calls" in want:
             round_changed |= inline_call_statements(ctx, f, fn)
+        if "valuecalls" in want:
+            round_changed |= inline_value_calls(ctx, f, fn)
         if "unroll" in want:
-            round_changed |= unroll_literal_loops(fn)
+            mconsts = {k: v[0] for k, v in f.module.consts.items() if len(v) == 1 and isinstance(v[0], (ast.Tuple, ast.List))}
+            round_changed |= unroll_literal_loops(fn, mconsts)
+        if "quant" in want:
+            round_changed |= expand_quantifiers(fn)
+        if "beta" in want:
+            round_changed |= beta_reduce(fn)
         if "getattr" in want:
             round_changed |= fold_getattr(fn)
         changed |= round_changed
